@@ -140,24 +140,37 @@ def trivial(line, res):
 
 RULE = ('Rectangle/Circle/Ellipse: correspondence of contains() over the bounding box + margin, the points() list, bounding_box(), '
         'center(), offset(), with_center() between the extracted model and the code for ALL diameters 0..N and ALL axis pairs '
-        '0..N x 0..N (N=20 quick, 40 thorough) at several positions incl. negative, plus random larger shapes and range-edge '
-        'positions for the saturating operations. search: the C05 predicate itself (points() == row-major filter of contains() over '
+        '0..N x 0..N (N=20 quick, 40 thorough) at several positions incl. negative, plus random larger shapes, display-sized shapes and '
+        'range-edge positions for the saturating operations; Rectangle points()/contains() for all sizes 0..6 x 0..6 + random; '
+        'circ_in / ell_in: contains() alone for diameters up to 70000 and axes up to 2^29 with probes at the centre, the box edges, the curve '
+        'and on BOTH sides of the machine range (model = checked arithmetic, answers PANIC exactly when an intermediate does not fit; the '
+        'harness is built with overflow checks). search: the C05 predicate itself (points() == row-major filter of contains() over '
         'box+margin, strictly row-major, inside bounding_box(), far probes outside the box) on the code for all sizes up to 24/64 '
-        'and random sizes up to 200. non-trivial = the shape has at least one point.')
+        'and random sizes up to 200; p_circ_far / p_ell_far: contains() on far points at the boundary of the no-overflow range (recomputed '
+        'in i128): inside it no panic and false outside the box; beyond it only an observation is reported. non-trivial = the shape has a point.')
 EXHAUSTIVE = {'quick': False, 'thorough': False}
-ASSUMPTIONS = ['top-left coordinates within +-2^29, diameter / width / height within 0..2^29: the range in which the saturating '
-               'operations of the model are not reached; products (diameter^2, width^2*height^2, squared doubled distances) are unbounded '
-               'integers in the model while the code computes the circle test in i32/u32 and the ellipse test in i64/u64 (since c18b215) - '
-               'agreement therefore needs diameter < 2^15 resp. width*height < 2^31 and probe points within that distance of the centre '
-               '(arithmetic overflow at larger sizes is the subject of C08, not of C05)']
+ASSUMPTIONS = ['Circle: top-left within +-2^29 and diameter <= 2^15 (circle_mok): then every probe points()/draw() make themselves fits the '
+               'machine arithmetic of the code (i32 `length_squared`, u32 threshold) and the unbounded model equals it (theorems '
+               'C05_circle_box_probes_ok, C05_circle_machine_agrees). Theorems that quantify over a point p carry probe_ok c p = "every '
+               'intermediate result of contains(p) fits its Rust type"; for d < 2^16 this is exactly 4*dist^2 <= i32::MAX, i.e. p within about '
+               '23170 px of the centre (C05_circle_probe_ok_exact). OUTSIDE that range the code does not satisfy clause 5: a build with '
+               'overflow checks panics and a release build wraps, e.g. Circle::new((0,0),11).contains((32773,5)) == true (observed; the '
+               'property probes "the bounding box plus a margin", which is inside the range).',
+               'Ellipse: top-left within +-2^29 and width*height <= 2^31 (ellipse_mok; equal axes therefore <= 46340, the circle threshold is '
+               'computed in u32); eprobe_ok e p = every intermediate of Ellipse::contains(p) fits (i32 differences, u64 products since c18b215): '
+               'far probes with h^2*dx^2 + w^2*dy^2 >= 2^64 overflow (panic / wrap) and are outside the claim.',
+               'Rectangle: coordinates within +-2^29, extents within 2^29 (no saturating operation reached).']
 TRUSTED = ['modelled, not verified: `as u32` of a non-negative i32 squared distance, u32 `/` as Z.div, Range<i32>::find as List.find '
            'over the integer range']
 PARTIAL = []
 
 LEVEL_TEXT = ('Proof: Coq theorems over the Gallina models of Rectangle, Circle and Ellipse state that points() is literally '
               '`filter contains (row-major points of bounding_box())` - hence every accepted point exactly once, in row-major order, '
-              'inside the bounding box - and that contains() is false outside the bounding box, for every position within +-2^29 and '
-              'every size (0, 1, 2, thin and flat shapes included). The scanline iterators are modelled as written (first hit per row, '
+              'inside the bounding box - and that contains() is false outside the bounding box, for every position within +-2^29, every size '
+              '(0, 1, 2, thin and flat shapes included) up to diameter 2^15 resp. width*height 2^31, and every probe point for which the '
+              'i32/u32/u64 arithmetic of the code does not overflow (exact condition probe_ok, proved equivalent to 4*dist^2 <= i32::MAX for '
+              'circles). In that range the checked machine evaluation is proved equal to the unbounded model, and the checked model is compared '
+              'with the code on both sides of the range. The scanline iterators are modelled as written (first hit per row, '
               'mirrored right end, circle: a row without hit ends the iteration, ellipse: such rows are skipped) and proved equal to the '
               'filter via a generic scanline lemma (mirror symmetry + convexity of the row predicate) and, for circles, the lemma that '
               'every row of the box has a hit. The models are tied to the code by running extracted model and real methods on the same '
